@@ -694,6 +694,40 @@ def to_new(rng, spec, side, keep_exported=0.2, getonly=0.15, setonly=0.15, newma
     return spec
 
 
+def mk_spec(src_members, dest_members, way="both", i=False, alias="", sname="S", dname=None, funcs=None, mapper_ptr=False,
+            src_kind="plain", dest_kind="plain"):
+    """hand-written pair (witnesses of the finding regions, replayed on every run)"""
+    mp = None
+    if funcs is not None:
+        mp = {"name": "Mapper", "ptr": mapper_ptr, "recvptr": False,
+              "funcs": [{"name": "Fn%d" % k, "param": a, "result": b} for k, (a, b) in enumerate(funcs)]}
+    return {"flags": {"way": way, "i": i, "alias": alias}, "sname": sname, "dname": dname or sname,
+            "src": ST(sname, src_members, src_kind), "dest": ST(dname or sname, dest_members, dest_kind), "mapper": mp}
+
+
+WITNESSES = {
+    "C05": lambda: [
+        ("F_multiMatch", mk_spec([F("ID", INT)], [F("ID", INT), F("Id", INT)])),
+        ("F_namedScalarSub", mk_spec([F("K", SRC_KIND)], [F("K", DEST_KIND)])),
+        ("F_tagKey", mk_spec([F("User_name", STR, "Title")], [F("Title", STR)])),
+        ("F_nestedTag", mk_spec([E(ST("Base", [F("Name", STR, "-")]))], [F("Name", STR)])),
+        ("F_skipShadow", mk_spec([F("Name", INT, "-"), E(ST("Base", [F("Name", INT)]))], [F("Name", INT)])),
+        ("F_ptrConv", mk_spec([F("P", P(INT))], [F("P", P(DEST_KIND))])),
+        ("F_convSrcNamed", mk_spec([F("L", SRC_LABEL)], [F("L", STR)])),
+    ],
+    "C09": lambda: [
+        ("F_ptrMapper", mk_spec([F("Count", INT)], [F("Count", STR)], funcs=[(INT, STR), (STR, INT)], mapper_ptr=True)),
+    ],
+    "C15": lambda: [
+        ("F_setOnlyRead", mk_spec([F("Wo", INT)], [F("wo", INT, set=True)], dest_kind="new")),
+        ("F_ctorPriority", mk_spec([F("Wide", INT)], [F("wide", I64)], way="to", funcs=[(INT, I64)], dest_kind="new")),
+        ("F_skipTagNew", mk_spec([F("Age", INT)], [F("age", INT, "-")], way="to", dest_kind="new")),
+        ("F_ctorNoSub", mk_spec([F("Addr", SRC_SUB)], [F("addr", DEST_SUB, get=True)], way="to", dest_kind="new")),
+        ("F_ctorTag", mk_spec([F("caption", STR, "Title", get=True)], [F("Title", STR)], way="from", src_kind="new")),
+    ],
+}
+
+
 def count_features(spec, feats=None):
     feats = feats if feats is not None else {}
 
